@@ -18,6 +18,7 @@ STREAM = {"sync-tcp", "sync-serial", "asyncio-tcp", "twisted-tcp"}
 class Result(object):
     def __init__(self):
         self.written = []
+        self.sent_to = []            # datagram front-ends: (peer address, data) per datagram sent
         self.escaped = None
         self.closed = False          # the front-end gave the connection up on its own (not: the peer closed it)
         self.saw_eof = False
@@ -51,6 +52,7 @@ class FakeSocket(object):
 
     def sendto(self, data, addr):
         self.res.written.append(data)
+        self.res.sent_to.append((addr, data))
         return len(data)
 
 
@@ -73,9 +75,11 @@ class FakeTransport(object):
 
     def write(self, data, addr=None):
         self.res.written.append(data)
+        self.res.sent_to.append((addr, data))
 
     def sendto(self, data, addr=None):
         self.res.written.append(data)
+        self.res.sent_to.append((addr, data))
 
     def close(self):
         self.res.closed = True
@@ -128,14 +132,14 @@ class MiniLoop(asyncio.AbstractEventLoop):
             n += 1
 
 
-def _drive_sync(frontend, framer_cls, context, decoder, chunks, res, ignore_missing, broadcast):
+def _drive_sync(frontend, framer_cls, context, decoder, chunks, res, ignore_missing, broadcast, peers=None, burst=False):
     import pymodbus.server.sync as S
     server = FakeServer(framer_cls, context, decoder, ignore_missing, broadcast)
     if frontend == "sync-udp":
-        for chunk in chunks:
+        for i, chunk in enumerate(chunks):
             sock = FakeSocket([], res, False)
             try:
-                S.ModbusDisconnectedRequestHandler((chunk, sock), ("peer", 1), server)
+                S.ModbusDisconnectedRequestHandler((chunk, sock), peers[i] if peers else ("peer", 1), server)
             except Exception as e:
                 res.escaped = e
                 return
@@ -161,7 +165,7 @@ def _drive_sync(frontend, framer_cls, context, decoder, chunks, res, ignore_miss
         res.escaped = e
 
 
-def _drive_asyncio(frontend, framer_cls, context, decoder, chunks, res, ignore_missing, broadcast):
+def _drive_asyncio(frontend, framer_cls, context, decoder, chunks, res, ignore_missing, broadcast, peers=None, burst=False):
     import asyncio.events as events
     import pymodbus.server.async_io as A
     loop = MiniLoop()
@@ -178,14 +182,16 @@ def _drive_asyncio(frontend, framer_cls, context, decoder, chunks, res, ignore_m
             h.protocol = None
         h.connection_made(FakeTransport(res))
         loop.run_pending()
-        for chunk in chunks:
+        for i, chunk in enumerate(chunks):
             if res.closed:
                 break
             if frontend == "asyncio-tcp":
                 h.data_received(chunk)
             else:
-                h.datagram_received(chunk, ("peer", 1))
-            loop.run_pending()
+                h.datagram_received(chunk, peers[i] if peers else ("peer", 1))
+            if not burst:
+                loop.run_pending()      # (burst: the datagrams arrive back-to-back, before the handler task runs)
+        loop.run_pending()
         if loop._exc:
             res.escaped = loop._exc[0].get("exception") or RuntimeError(str(loop._exc[0]))
         t = h.handler_task
@@ -197,7 +203,7 @@ def _drive_asyncio(frontend, framer_cls, context, decoder, chunks, res, ignore_m
         events._set_running_loop(old)
 
 
-def _drive_twisted(frontend, framer_cls, context, decoder, chunks, res, ignore_missing, broadcast):
+def _drive_twisted(frontend, framer_cls, context, decoder, chunks, res, ignore_missing, broadcast, peers=None, burst=False):
     import pymodbus.server.asynchronous as T
     if frontend == "twisted-tcp":
         f = T.ModbusServerFactory(context, framer_cls, ignore_missing_slaves=ignore_missing)
@@ -219,15 +225,15 @@ def _drive_twisted(frontend, framer_cls, context, decoder, chunks, res, ignore_m
         p.decoder = decoder
         p.framer = framer_cls(decoder)
         p.transport = FakeTransport(res)
-        for chunk in chunks:
+        for i, chunk in enumerate(chunks):
             try:
-                p.datagramReceived(chunk, ("peer", 1))
+                p.datagramReceived(chunk, peers[i] if peers else ("peer", 1))
             except Exception as e:
                 # reactor contract for datagram protocols: the exception is logged, the port keeps serving
                 res.twisted_dropped = e
 
 
-def drive(frontend, framing, context, chunks, ignore_missing=False, broadcast=False, decoder=None):
+def drive(frontend, framing, context, chunks, ignore_missing=False, broadcast=False, decoder=None, peers=None, burst=False):
     from pymodbus.factory import ServerDecoder
     from pymodbus.device import ModbusControlBlock
     from spec.adu import framer_class
@@ -238,11 +244,11 @@ def drive(frontend, framing, context, chunks, ignore_missing=False, broadcast=Fa
     res.decoder = decoder
     fc = framer_class(framing)
     if frontend.startswith("sync"):
-        _drive_sync(frontend, fc, context, decoder, chunks, res, ignore_missing, broadcast)
+        _drive_sync(frontend, fc, context, decoder, chunks, res, ignore_missing, broadcast, peers, burst)
     elif frontend.startswith("asyncio"):
-        _drive_asyncio(frontend, fc, context, decoder, chunks, res, ignore_missing, broadcast)
+        _drive_asyncio(frontend, fc, context, decoder, chunks, res, ignore_missing, broadcast, peers, burst)
     else:
-        _drive_twisted(frontend, fc, context, decoder, chunks, res, ignore_missing, broadcast)
+        _drive_twisted(frontend, fc, context, decoder, chunks, res, ignore_missing, broadcast, peers, burst)
     return res
 
 
